@@ -3,11 +3,13 @@ import Bmc.Driver.DecBasic
 import Bmc.Driver.DecCore
 import Bmc.Driver.DecSess
 import Bmc.Driver.DecDcmi
+import Bmc.Driver.DecSdr
+import Bmc.Driver.DecSetup
 import Bmc.Driver.Rt
 import Bmc.Driver.Send
 open Bmc.Driver
 
-def decTables : List (String × DecFn) := decTableBasic ++ decTableCore ++ decTableSess ++ decTableDcmi
+def decTables : List (String × DecFn) := decTableBasic ++ decTableCore ++ decTableSess ++ decTableDcmi ++ decTableSdr ++ decTableSetup
 
 def evalDec (args : List String) : String :=
   match args with
